@@ -404,9 +404,16 @@ func c18Whole(c *hx.Ctx) {
 					for n := 0; n < per; n++ {
 						ji := gr.Intn(njobs)
 						j := jobs[ji]
-						mon.enter(j.op, j.x, j.y, j.u)
+						// The overlap statistics are atomics, and an atomic operation orders the goroutines that perform it
+						// in the eyes of the race detector: they are kept only in the configurations that inject delays
+						// (whose hook synchronises anyway); in the others nothing but the WaitGroup orders the goroutines.
+						if inject {
+							mon.enter(j.op, j.x, j.y, j.u)
+						}
 						got := c18Exec(j, ops)
-						mon.leave(j.op, j.x, j.y, j.u)
+						if inject {
+							mon.leave(j.op, j.x, j.y, j.u)
+						}
 						if got != ref[ji] {
 							if mon.mismatch.Add(1) == 1 {
 								mon.firstBad.Store(fmt.Sprintf("job %d %s(x=#%d y=#%d u=#%d prec=%d mode=%d) under GOMAXPROCS=%d with %d goroutines (hooks=%v): concurrent result %.300q, sequential %.300q", ji, c18OpNames[j.op], j.x, j.y, j.u, j.prec, j.mode, cf.procs, cf.goroutines, inject, got, ref[ji]))
